@@ -553,6 +553,16 @@ def run_shard(spec):
                             S.Struct('CS', [S.Member('a', 'u8', S.FIXED, 2, size_text='CK')])])
             run_set(can, {'CE': set(), 'CK': {'CE'}, 'CS': {'CK'}},
                     list(itertools.permutations(['CE', 'CK', 'CS'])), True)
+            # a struct that needs a typedef only through the type of an array's length field, pulled forward by an alias
+            # of the struct; the length type is an alias of an alias half of the time
+            two = rng.random() < 0.5
+            mot = S.Schema([S.Typedef('MT0', 'u16')] + ([S.Typedef('MT', 'MT0')] if two else []) +
+                           [S.Struct('MB', [S.Member('cnt', 'MT' if two else 'MT0'), S.Member('items', 'u32', S.EXT, sizer='cnt')]),
+                            S.Typedef('MTB', 'MB'),
+                            S.Struct('MD', [S.Member('total', 'u8'), S.Member('stock', 'MTB')])])
+            mdeps = {'MT0': set(), 'MT': {'MT0'}, 'MB': {'MT' if two else 'MT0'}, 'MTB': {'MB'}, 'MD': {'MTB'}}
+            mnames = [d.name for d in mot.defs]
+            run_set(mot, {k: v for k, v in mdeps.items() if k in mnames}, list(itertools.permutations(mnames)), True)
             for k in range(spec['small']):
                 n = rng.randint(3, 5)
                 sch, deps = gen_dag(rng, n)
